@@ -6,6 +6,18 @@ checks = {
  "C01": ("exploration", "seeded simulation of real client/server pairs vs. independent negotiation model",
    "Seeded search over configuration pairs (both stacks) under the vs kernel: every run executes two unmodified (source-instrumented) endpoints over a simulated reliable transport with seeded segmentation and task interleaving, and compares completion, negotiated version/suite/ALPN/resumption flag, peer-certificate lists and an echo in both directions with an independent negotiation model. Exploration is the right level: the configuration space is a large product that is sampled (3 000 quick / 500 000 thorough pairs), not enumerated.",
    "Trusted: the negotiation model (written from the Config/ClientAuthType documentation and the property text); the static PKI judged at 2030-01-01; vsinstr's rewriting only adds pre-emption points; applications close a connection whose handshake failed.", "5/C01"),
+ "C04": ("exploration", "passive wire monitor re-deriving key schedule, Finished values and record protection from captured bytes (independent reference implementation) over seeded full+resumed handshakes of real endpoints",
+   "Every run executes real client and server (both stacks, four suites, with/without client authentication, full then resumed) with random application writes; a monitor that shares no code with gotlcp recomputes pre-master (SM2 decryption, or SM2 key agreement through the harness-owned SM2KeyAgreement seam on alternating sides), master secret, key block, both Finished values and opens every protected record of each direction with that direction's own key, checks nonce/IV uniqueness, the pre-master version bytes and the cached master secrets. Exploration (sampled sizes/configurations).",
+   "Trusted: package ref as a correct reading of GB/T 38636 6.5 and the record formats; gmsm primitives (shared); hooks VerifFinished/VerifSession are read-only.", "5/C04"),
+ "C05": ("fault_enumeration", "enumerated single record faults (every byte position x 3 masks, drop/dup/swap/cut/truncate/inject) by a record-aware man in the middle on real endpoints after a clean handshake",
+   "Enumerates the single-fault space on small application records completely for both cipher modes and both directions (quick), adding large records, ECDHE suites, every record index and seeded multi-fault plans (thorough). Oracle: delivered bytes are exactly the records before the first damaged one, then an error (never a clean EOF except for a cut on a record boundary), later reads keep failing, CBC ciphertext damage is answered with bad_record_mac (alert opened by the monitor).",
+   "Trusted: one Write <= 1024 bytes = one record (checked on the wire); package ref for opening the alert.", "5/C05"),
+ "C06": ("exploration", "seeded write-size / segmentation / read-buffer workloads on real endpoints with a wire monitor for record limits",
+   "Seeded workloads around the record-size boundaries with transport segmentation down to one byte per read and read buffers from 1 byte; client writes, half-closes, server reads to EOF, writes, closes. Oracle: writes report full length, concatenated reads equal concatenated writes then io.EOF, every record opened by the monitor has <= 16384 plaintext and <= 16384+2048 ciphertext bytes.",
+   "Trusted: package ref (validated by C04); reliable unbounded transport.", "5/C06"),
+ "C13": ("exploration", "seeded schedules of several caller tasks on one connection under the vs kernel, race detector as oracle (scheduler hand-over invisible to it)",
+   "Race build. 2-8 tasks use ONE connection (tlcp, dtlcp ReadFrom/WriteTo, pa adapter) while the kernel decides every pre-emption at every mutex/atomic/transport operation; scenarios: established, first use racing with the handshake, Close racing with in-flight calls, pa first use. Oracle: no race report, no deadlock, same Handshake result for all callers, every successful Write whole and exactly once at the peer (multi-record writes included), inbound frames delivered exactly once across concurrent readers, Close unblocks everything, second Close reports closed.",
+   "Trusted: pre-emption only at instrumented points (code between them is atomic in the simulation; the race detector still sees every access); bounded race-detector history.", "5/C13"),
 }
 not_applicable = {
  "C14": "pure function of its input (marshal/unmarshal): no schedule, clock, transport, peer or history enters; input generation is not a simulation target (DESIGN.md section 7). What the simulator sees of the codec is covered under C03/C04/C09.",
